@@ -23,7 +23,8 @@ class Mismatch(Exception):
 
 CURRENT = {}
 CFGS = ['v6', 'v7', 'v6-nosec', 'v7-virt']
-val = st.one_of(st.sampled_from(gen.CORNERS), st.integers(0, M32))
+# Hypothesis favours small integers (see e1prop.mixed): a bijective scramble keeps shrinking / replay and gives high bits the same chance
+val = st.one_of(st.sampled_from(gen.CORNERS), st.integers(0, M32), st.integers(0, M32).map(lambda x: (x * 0x9E3779B1 + 0x7F4A7C15) & M32))
 
 
 def make_machine(acc):
@@ -78,7 +79,7 @@ def make_machine(acc):
             self.M.setfield('cpsr', 4, 0, mode)
             self.switches += 1
 
-        @rule(v=st.integers(0, M32), mask=st.integers(0, 15), ret=st.booleans())
+        @rule(v=val, mask=st.integers(0, 15), ret=st.booleans())
         def cpsr_write(self, v, mask, ret):
             v &= ~(1 << 24)      # J=0: no Jazelle / ThumbEE in these configurations
             m2 = Machine(dict(self.M.s), [], self.cfg)
@@ -92,7 +93,7 @@ def make_machine(acc):
             self.switches += 1
 
         @precondition(lambda self: hasattr(self, 'M') and self.M.mode not in (gen.MODES['usr'], gen.MODES['sys']))
-        @rule(v=st.integers(0, M32))
+        @rule(v=val)
         def set_spsr(self, v):
             self.hist.append(('set_spsr', v))
             self.cpu.registers.set_spsr(v)
